@@ -163,6 +163,8 @@ def check_property(pid, tier, seed, canary=True):
                 assumptions.append("verus:%s: %s is external_body - its contract is ASSUMED in Verus (checked by Kani where a shim_/leaf_ harness names it)" % (u, f["name"]))
             elif f["contract"]:
                 functions.add("%s (%s) [verus:%s, unbounded]" % (f["name"], f["file"], u))
+        for d in r.get("stale_hints_dropped", []):
+            assumptions.append("verus:%s: a proof hint in %s no longer described the code and was dropped before the verdict (hints are not obligations): %s" % (u, d["function"], d["hint"][:120]))
         if r["status"] == "undecided":
             undecided.append("verus:%s: %s" % (u, r["reason"]))
             all_P.append("verus:%s" % u)
